@@ -52,6 +52,10 @@ def check_base_tables(prog, report, skip=()):
         family, _ = tables.FAMILIES[fname]
         for r in rules:
             where = '%s:%d (%s)' % (fi.file, r.lineno, fname)
+            if r.problem and r.merged:
+                report.violation('E1-literal', r.name, where, r.problem,
+                                 construct=r.name)
+                continue
             if r.problem:
                 raise AnalysisError('%s: %s' % (where, r.problem))
             same_len, _, _, _ = tables.shape_facts(r)
@@ -95,6 +99,10 @@ def run(prog, report, tier):
                 report.violation('E1-duplicate-key', r.name, where,
                                  'key tested twice; second branch is dead')
             seen_keys.add(r.key)
+            if r.problem and r.merged:
+                report.violation('E1-lengths', r.name, where, r.problem,
+                                 construct=r.name)
+                continue
             if r.problem:
                 raise AnalysisError('%s: %s' % (where, r.problem))
             report.check(
